@@ -126,6 +126,19 @@ Step(e) ==
               \o Cl(e.printed = [j \in 1..Len(heard) |-> HexLower(Field(heard[j].b, 18, 3))], "X05:prints-each-discovered-device-once")
               \o Cl(e.exc = "", "X05:script-raised") \o Cl(e.left = <<>>, "X05:ports-released-at-exit"),
               "discover-" \o (IF e.type = "" THEN "default" ELSE e.type), BB, occ, known)
+    [] e.ev = "KeyScript" ->     \* beyond the listed statements: scripts/get_device_login_key.py run as a program
+         \* it listens on the given port for two seconds; the first datagram FROM THE GIVEN ADDRESS that arrives in that time
+         \* yields the login key (byte 40, two hex digits; nothing if the datagram is shorter); then, or after two seconds of
+         \* nothing from that address, it closes its socket and ends
+         LET inTime == SelectSeq(e.dgrams, LAMBDA g : g.at < 2000)
+             mine == SelectSeq(inTime, LAMBDA g : g.src = e.ip)
+             want == IF mine = <<>> THEN <<>> ELSE <<IF Len(mine[1].b) >= 41 THEN HexLower(Field(mine[1].b, 40, 1)) ELSE <<>>>>
+         IN R(   Cl(e.bound = <<e.port>>, "X06:listens-on-the-given-port")
+              \o Cl(e.printed = want, "X06:prints-the-key-of-the-first-datagram-from-the-device")
+              \o Cl(e.stopped = (mine = <<>>), "X06:gives-up-after-two-seconds")
+              \o Cl(mine # <<>> \/ e.waited \in 2000..2100, "X06:waits-two-seconds-for-the-device")
+              \o Cl(e.closed, "X06:socket-closed-at-exit") \o Cl(e.exc = "", "X06:script-raised"),
+              IF mine = <<>> THEN "keyscript-nothing-heard" ELSE IF Len(mine[1].b) < 41 THEN "keyscript-short-datagram" ELSE "keyscript-key", BB, occ, known)
     [] e.ev = "NetErr" -> R(Cl(~e.raised, "X02:error-report-raised"), IF e.handed THEN "net-error" ELSE "net-error-nobody-listens",
                             [j \in 1..NB |-> AfterNetError(BB[j])], occ, known)
     [] e.ev = "Obs" -> LET j == JudgeObs(e) IN R(j.why, j.tag, BB, occ, known)
